@@ -123,6 +123,12 @@ func genBatch(pc *propCfg, seed uint64, batchNo, n int, tier string) []*sdl.Prog
 			}
 		}
 		ps := mix(mix(seed, strHash(pc.ID)), uint64(batchNo)<<20|uint64(i))
+		if fam == gen.FamEmbed {
+			a, b := gen.GenerateTwins(ps, fmt.Sprintf("P%d", i), fmt.Sprintf("P%d", i+1))
+			progs = append(progs, a, b)
+			i += 2
+			continue
+		}
 		progs = append(progs, gen.Generate(ps, fmt.Sprintf("P%d", i), fam))
 		i++
 	}
